@@ -39,6 +39,10 @@ def run(ctx):
     ctx.rule("R6", "the file front end scans the file's own text (what --stdin and the language server receive verbatim), so ranges agree")
     from .c18 import read_file_identity
     read_file_identity(ctx, "R6")
+    ctx.rule("R7", "rule selection is the same for every front end: RuleCollection stores only rules that are not off, keeps one bucket per language (readers take the first), "
+             "and every whole-collection accessor visits both the unscoped and the path-scoped rules")
+    from . import rulecoll
+    rulecoll.invariants(ctx, "R7")
     ctx.rule("R3", "LSP: stale document versions are ignored; the stored version is the one published; close removes the entry")
     fronts = [
         (r"^<ast_grep::scan::ScanWithConfig as ast_grep::utils::worker::PathWorker>::produce_item$", "get_rule_from_lang"),
